@@ -89,11 +89,15 @@ Section Rel.
   Qed.
 
   Lemma rres_fle fwd n n' K : (forall f, fle (IR f n fwd) (IR (f + K) n' fwd)) -> rres ix unicode utf16 h okp fwd n n'.
-  Proof. intro H. exists K. intros f _. apply fle_frelP. apply H. Qed.
+  Proof. intro H. exists K. intro f. apply fle_frelP. apply H. Qed.
 
   Lemma rres_fleO fwd n n' K :
     (forall f x r, okp (fst x) -> IR f n fwd x = Some r -> IR (f + K) n' fwd x = Some r) -> rres ix unicode utf16 h okp fwd n n'.
-  Proof. intro H. exists K. intros f _ x r Hx E. exists r. split; [apply H; assumption|apply dd_refl]. Qed.
+  Proof. intro H. exists K. intros f x r Hx E. exists r. split; [apply H; [exact (proj1 Hx)|exact E]|apply dd_refl]. Qed.
+
+  Lemma rres_fleS fwd n n' K :
+    (forall f x r, oks okp x -> IR f n fwd x = Some r -> IR (f + K) n' fwd x = Some r) -> rres ix unicode utf16 h okp fwd n n'.
+  Proof. intro H. exists K. intros f x r Hx E. exists r. split; [apply H; assumption|apply dd_refl]. Qed.
 
   (* a pass whose single rewrites establish PRel establishes it by run_to_fixpoint *)
   Theorem pass_sound (func : bool -> node -> R action) :
